@@ -171,7 +171,7 @@ func checkC09(c *core.Ctx) error {
 		replay      interface{}
 	}
 	var reps []rep
-	for run, whys := range FirstBad(st2) {
+	for run, whys := range FirstBad(st2, mine) {
 		o := byID[run]
 		if o == nil {
 			return fmt.Errorf("validator reported unknown run %q", run)
